@@ -636,6 +636,9 @@ func init() {
 			if err := rtmpCanary(s, fmt.Sprintf("canary%d_end", i)); err != nil {
 				c.Violate("canary/stopped-serving", err.Error(), goroutineDump())
 			}
+			if len(ins) > 0 {
+				c13Spin(c, ins[len(ins)-1].Class) // a connection lal neither closes nor waits on, but spins on
+			}
 			c.Count("connections_closed_by_lal", closed)
 			c.Count("connections_left_open", open)
 			if i < 8 && len(ins) > 0 {
